@@ -58,7 +58,7 @@ package core
 //@ func (*DrandDaemon).AddBeaconHandler(dd, ctx, beaconID, bp)
 //@   props C19 C14
 //@   flags lockcheck
-//@   requires bp != nil && dd.chainHashes != nil && dd.handler != nil && dd.handler.beacons != nil && bp.group != nil && bp.group.Scheme != nil && bp.group.PublicKey != nil && common.validPeriod(bp.group.Period)
+//@   requires [C19,C14] bp != nil && dd.chainHashes != nil && dd.handler != nil && dd.handler.beacons != nil && bp.group != nil && bp.group.Scheme != nil && bp.group.PublicKey != nil && common.validPeriod(bp.group.Period)
 //@   modifies mapof(dd.chainHashes), mapof(dd.handler.beacons), bp.group.GenesisSeed, tr(all), hkind(all)
 //@   ensures [C19:hash-resolves-to-added-id] has(dd.chainHashes, chain.groupHashStr(bp.group)) && dd.chainHashes[chain.groupHashStr(bp.group)] == beaconID
 //@   ensures [C19:default-alias-only-for-default-id] isDefaultID(beaconID) ==> has(dd.chainHashes, "default") && dd.chainHashes["default"] == beaconID
@@ -92,3 +92,38 @@ package core
 //@ func (*DrandDaemon).GetIdentity(dd, ctx, in)
 //@   props C19
 //@   call GetIdentity#0: assert [C19:GetIdentity-served-by-named-chain] servedBy(dd, old(mdHash(reqMd(in))), old(mdID(reqMd(in))), arg0)
+
+// ---- C13: what a restart does is decided by the completed record of the DKG database ---------------------------------
+//@ func (*DrandDaemon).LoadBeaconFromStore(dd, ctx, beaconID, store) (bp, err)
+//@   props C13
+//@   call LoadGroup#0: assert [C13:group-file-migration-is-tried-only-without-a-completed-dkg-record] status != nil && status.Complete == nil
+//@   call Load#0: assert [C13:beacon-is-loaded-only-with-a-completed-dkg-record-or-a-migrated-group-file] status.Complete != nil || g != nil
+
+// groupFileOf / shareFileOf: the two files of a key store; groupEnc / shareEnc: their encodings; sameEpoch(g, s): the
+// group file content g and the share file content s come from the same DKG output.
+//@ ghost groupFileOf(ref) string
+//@ ghost shareFileOf(ref) string
+//@ ghost groupEnc(ref) bytes
+//@ ghost shareEnc(ref) bytes
+//@ ghost sameEpoch(bytes, bytes) bool
+//@ iface (github.com/drand/drand/v2/common/key.Store).SaveGroup(s, g) (err)
+//@   trusted file store: key.Save of the group into the store's group file (atomic replace, see key.Save under C13)
+//@   modifies fexists(groupFileOf(s)), fmode(groupFileOf(s)), fcontent(groupFileOf(s))
+//@   ensures err == nil ==> fcontent(groupFileOf(s)) == groupEnc(g)
+//@   ensures err != nil ==> fcontent(groupFileOf(s)) == old(fcontent(groupFileOf(s)))
+//@ iface (github.com/drand/drand/v2/common/key.Store).SaveShare(s, sh) (err)
+//@   trusted file store: key.Save of the share into the store's share file
+//@   modifies fexists(shareFileOf(s)), fmode(shareFileOf(s)), fcontent(shareFileOf(s))
+//@   ensures err == nil ==> fcontent(shareFileOf(s)) == shareEnc(sh)
+//@   ensures err != nil ==> fcontent(shareFileOf(s)) == old(fcontent(shareFileOf(s)))
+
+//@ field Config.dkgCallback(self, ctx, group)
+//@   trusted daemon callback (re-registers the HTTP handler); does not touch the key store
+//@   modifies nothing
+
+//@ func (*BeaconProcess).storeDKGOutput(bp, ctx, group, share) (err)
+//@   props C13
+//@   requires bp.opts != nil && groupFileOf(bp.store) != shareFileOf(bp.store)
+//@   requires sameEpoch(fcontent(groupFileOf(bp.store)), fcontent(shareFileOf(bp.store))) && sameEpoch(groupEnc(group), shareEnc(share))
+//@   call SaveShare#0: assert [C13:a-crash-between-the-two-writes-leaves-group-and-share-of-one-epoch] sameEpoch(fcontent(groupFileOf(bp.store)), fcontent(shareFileOf(bp.store)))
+//@   ensures [C13:a-stored-dkg-output-is-a-matching-group-and-share] err == nil ==> sameEpoch(fcontent(groupFileOf(bp.store)), fcontent(shareFileOf(bp.store)))
